@@ -45,7 +45,8 @@ func (ref *FileEnt) OpenDir(ctx context.Context,
 
 	dirs := []p9p.Dir{dotdot}
 	for _, file := range ref.children {
-		dirs = append(dirs, file.Info)
+		info, _ := file.Stat(ctx)
+		dirs = append(dirs, info)
 	}
 	return (&dirList{dirs, false}).Next, nil
 }
@@ -98,11 +99,13 @@ func (ref *FileEnt) Walk(names ...string) []*FileEnt {
 	var i int
 
 	for i = 0; i < len(names); i++ {
-		var found bool
-		ref, found = ref.children[names[i]]
+		ref.Lock()
+		next, found := ref.children[names[i]]
+		ref.Unlock()
 		if !found {
 			break
 		}
+		ref = next
 		ans[i] = ref
 	}
 	return ans[:i]
@@ -241,6 +244,8 @@ func (h FileHandle) createImpl(fname string, mode uint32) (FileHandle, error) {
 }
 
 func (ref *FileEnt) Stat(ctx context.Context) (p9p.Dir, error) {
+	ref.Lock()
+	defer ref.Unlock()
 	return ref.Info, nil
 }
 func (h FileHandle) Stat(ctx context.Context) (p9p.Dir, error) {
@@ -248,6 +253,8 @@ func (h FileHandle) Stat(ctx context.Context) (p9p.Dir, error) {
 }
 
 func (ref *FileEnt) WStat(ctx context.Context, dir p9p.Dir) error {
+	ref.Lock()
+	defer ref.Unlock()
 	if dir.Mode != ^uint32(0) {
 		ref.Info.Mode = dir.Mode
 	}
